@@ -381,7 +381,7 @@ func genC13Cases(env *Env, r *Rand, n int, full bool) []Case {
 	// (f) directives and templates
 	for _, d := range []string{"[BITS 64]", "[BITS 8]", "[BITS]", "[FOO 1]", "[FORMAT \"ELF\"]", "[FORMAT WCOFF]", "[FORMAT \"WCOFF\"]\n[FORMAT \"BIN\"]", "[SECTION .data]", "[FILE]", "[FILE 5]", "[INSTRSET \"i486p\"]\n[INSTRSET 1]",
 		"[ABSOLUTE 0]", "[PADDING 1]", "[PADSET 1]", "[OPTIMIZE 1]", "[BITS 32", "BITS 32]", "[[BITS 32]]", "\tGLOBAL", "\tGLOBAL 5", "\tGLOBAL a,,b", "\tEXTERN", "X EQU", "EQU 5", "X EQU Y", "X EQU X", "X EQU X+1\n\tDD X",
-		"A EQU B\nB EQU A\n\tDD A", "X EQU Y*2\nY EQU [X*2]\n\tMOV AX,Y", "X EQU Y+1\nY EQU 8:X\n\tJMP Y", "A EQU B\nB EQU C\nC EQU [A]\n\tMOV AX,C", "A EQU BYTE [B]\nB EQU A\n\tMOV A,1",
+		"A EQU B\nB EQU A\n\tDD A", "X EQU Y*2\nY EQU [X*2]\n\tMOV AX,Y", "X EQU Y*2+Y*2\nY EQU [X*2]\n\tMOV AX,Y", "X EQU Y+Y+Y\nY EQU 8:X\n\tJMP Y", "A EQU B*B\nB EQU C*C\nC EQU [A*A]\n\tMOV AX,C", "X EQU [Y+Y]\nY EQU [X+X]\n\tMOV AX,X\n\tMOV BX,Y", "X EQU Y+1\nY EQU 8:X\n\tJMP Y", "A EQU B\nB EQU C\nC EQU [A]\n\tMOV AX,C", "A EQU BYTE [B]\nB EQU A\n\tMOV A,1",
 		"P EQU Q*Q\nQ EQU (P)\n\tDD Q", "S EQU \"s\"\n\tDB S", "R EQU AX\n\tMOV R,1", "M EQU [BX]\n\tMOV AL,M", "F EQU 8:16\n\tJMP F", "N EQU $\n\tDW N", "N EQU $+N2\nN2 EQU 1\n\tDW N", "\tDB \"{{.deflabel}}\"", "\tMOV AX,{{.deflabel}}", "\tJMP {{", "\tDB \"{{\"", "\tDB \"}}{{\"", "{{.x}}:", "\tJMP {{.}}", "\tJMP {{template \"x\"}}", "\tJMP {{printf \"%d\" 5}}",
 		"\tORG", "\tORG AX", "\tORG 1,2", "\tRESB", "\tRESB AX", "\tRESB -1", "\tALIGNB 0", "\tALIGNB 3", "\tALIGNB -4", "\tALIGNB AX", "\tTIMES 3 DB 0", "\tDB", "\tDB ,", "\tDB 1,,2", "\tDW \"ab\"", "\tDD 'abcd'", "\tDB 'ab'", "\tDB ''",
 		"\tEND", "\tRESW 2", "\tRESD 2", "\tDQ 1", "\tDT 1", "\tALIGN 4", "\tINCO \"x\"", "label", "label: NOP", ":", "\t:", "a:b:", "1label:", "$:", ".:\n\tJMP .", "_:\n\tJMP _"} {
